@@ -73,7 +73,7 @@ func verifWTWrite(cas *CAStore, name string, size uint64, streamed int, fail boo
 func verifWTRun() {
 	maxSize := verif.Uint64("max_size")
 	cas := verifWTStore(maxSize)
-	k := verif.Bound("ops", 2, 3)
+	k := verif.Bound("ops", 3, 4)
 	for i := 0; i < k; i++ {
 		switch verif.Choice("op", 2) {
 		case 0:
